@@ -104,6 +104,7 @@ static int method_idx;
 static int main_returned;
 static int empty_polls;
 static int autotask_left;
+static int prev_wait_eintr;
 static int cycle, cycles;
 
 static int rule_on(const char *r)
@@ -690,6 +691,8 @@ static void perform(const struct act *a)
 		w->submitted = 1;
 		w->worked = w->completed = 0;
 		iv_work_pool_submit_work(NULL, w->p);
+		if (w->worked || w->completed)
+			FAIL("work-sync", "with a NULL pool the work function ran synchronously inside the submit call, not later from a task");
 		break;
 	}
 	}
@@ -1025,6 +1028,7 @@ static void wait_entry(struct env_wait *w)
 	}
 	last_wait_time = env_now;
 	callbacks_since_wait = 0;
+	prev_wait_eintr = eintr_since_wait;
 	eintr_since_wait = 0;
 	memset(tasks_ran_since_wait, 0, sizeof(tasks_ran_since_wait));
 
@@ -1039,6 +1043,9 @@ static void wait_entry(struct env_wait *w)
 		truth = fd_truth(f);
 		for (b = 0; b < 3; b++) {
 			if (f->hv[b] && (truth & bm[b])) {
+				/* a wait that was interrupted delivered nothing: it does not count as a missed opportunity */
+				if (prev_wait_eintr && f->unserved[b] > 0)
+					continue;
 				if (++f->unserved[b] > 3)
 					FAIL("fd-starved", "fd%d band %d has had a handler and a true kernel condition at %d consecutive polls without being invoked", i, b, f->unserved[b]);
 			} else {
@@ -1049,7 +1056,7 @@ static void wait_entry(struct env_wait *w)
 	for (i = 0; i < NTM; i++) {
 		/* a timer that was already due at the previous poll must have been run by now */
 		if (T[i].reg && T[i].overdue_polls && env_ts_cmp(&T[i].exp, &env_now) <= 0) {
-			if (++T[i].overdue_polls > 3)
+			if (!prev_wait_eintr && ++T[i].overdue_polls > 3)
 				FAIL("timer-starved", "timer %d has been due for %d polls and still has not run (tasks / descriptors keep the loop busy)", i, T[i].overdue_polls - 1);
 		} else if (T[i].reg && env_ts_cmp(&T[i].exp, &env_now) <= 0) {
 			T[i].overdue_polls = 1;
